@@ -455,9 +455,8 @@ pub fn extract_embedded_skin_bytes(m2_data: &[u8], skin_index: usize) -> Result<
 
     if skin_index >= views_count as usize {
         return Err(M2Error::ParseError(format!(
-            "Skin index {} out of range (max: {})",
-            skin_index,
-            views_count - 1
+            "Skin index {} out of range (model has {} skin profiles)",
+            skin_index, views_count
         )));
     }
 
